@@ -713,6 +713,17 @@ class Engine:
             for key, cand in self.loop_contracts.items():
                 if isinstance(key, tuple) and key and key[0] == 'match' and key[1](fn, s):
                     lc = cand; break
+        if lc is None and len(self.loop_contracts) == 1:
+            # the operator has ONE loop under contract: the contract follows that loop into a local helper of the same factory
+            # (e.g. the body of a branch moved into `def _on_item(i)`), as long as it is the first loop of that helper
+            (key, cand), = self.loop_contracts.items()
+            if isinstance(key, tuple) and len(key) == 2 and isinstance(key[0], str) and ordn == 0 and key[1] == 0:
+                fac = key[0].split('.')
+                # common prefix = module + factory function (everything up to and including the outermost def)
+                mod_parts = fr.module.split('.') if getattr(fr, 'module', None) else []
+                pre = '.'.join(fac[:len(mod_parts) + 1])
+                if mod_parts and key[0].startswith(fr.module + '.') and fn.startswith(pre + '.'):
+                    lc = cand
         # concrete iteration: for x in <python list/tuple/range(const)>
         if isinstance(s, ast.For):
             its = self.ev(p, s.iter, fr)
